@@ -58,7 +58,7 @@ Theorem disambiguation_repaired : forall env d,
   symToString repaired env d =
   "(as " ++ protectName repaired (sd_name d) false ++ " " ++ sortToString repaired (sd_ret d) ++ ")".
 Proof.
-  intros env d Hl Hne Hi Hn Ha. unfold symToString, disambiguateName. rewrite Hi, Hn.
+  intros env d Hl Hne Hi Hn Ha. unfold symToString, disambiguateName. rewrite Hi, Hn. unfold is_ambiguous in Ha.
   cbn [negb orb v_view_key_bug repaired andb].
   destruct (protect_cases repaired (sd_name d)) as [E | (E & _)]; rewrite E.
   - rewrite (isQuoted_in_bars _ Hne), andb_false_r, inner_in_bars, Ha, orb_true_r. reflexivity.
